@@ -22,9 +22,18 @@ type c04Params struct {
 	mode  string // onest | handler | free1 | free2 | free3
 	event string // none | fin | notif-rx | handler-notif | close
 	hold  int
+	// join: OnClose waits until the free writer goroutines of the session have returned from the
+	// WriteUpdate call they are in (a plugin that joins its announcer before it lets go of a session)
+	join bool
 }
 
-func (p c04Params) name() string { return fmt.Sprintf("%s/%s/hold%d", p.mode, p.event, p.hold) }
+func (p c04Params) name() string {
+	s := fmt.Sprintf("%s/%s/hold%d", p.mode, p.event, p.hold)
+	if p.join {
+		s += "/join"
+	}
+	return s
+}
 
 type c04Call struct {
 	g        string
@@ -72,6 +81,15 @@ func c04Run(p c04Params, ch vrt.Chooser, trace bool) (*world.World, *vrt.Exec, *
 			nFree = int(p.mode[4] - '0')
 		}
 		pl := &world.Plugin{W: w, Peer: "P1", Marker: true}
+		inCall := 0 // free writers currently inside WriteUpdate
+		if p.join {
+			pl.OnCloseFn = func(pp *world.Plugin, s int) {
+				if s == 1 {
+					vrt.WaitLog("writers-out-of-call", func() bool { return inCall == 0 })
+					vrt.LogTouch()
+				}
+			}
+		}
 		pl.OnEst = func(pp *world.Plugin, s int, wr corebgp.UpdateMessageWriter) {
 			if p.mode == "onest" {
 				write(wr, s, c04Body(0, 0))
@@ -86,8 +104,12 @@ func c04Run(p c04Params, ch vrt.Chooser, trace bool) (*world.World, *vrt.Exec, *
 					// first write coincides with the keepalive timer / the event at t=3s, then
 					// keep using the (by then possibly dead) writer
 					vrt.Sleep(3 * time.Second)
-					write(wr, s, c04Body(i+1, 0))
-					write(wr, s, c04Body(i+1, 1))
+					for n := 0; n < 2; n++ {
+						inCall++
+						write(wr, s, c04Body(i+1, n))
+						inCall--
+						w.Note("writer", "out of call")
+					}
 					vrt.Sleep(2 * time.Second)
 					write(wr, s, c04Body(i+1, 2))
 				})
@@ -236,11 +258,23 @@ func c04Judge(p c04Params, w *world.World, e *vrt.Exec, o *c04Obs) (string, stri
 	return monitorCallbacks(w)
 }
 
-func c04Scn(p c04Params, bound int) *Scn {
+func c04Scn(p c04Params, bound int) *Scn { return c04ScnFor("C04", p, bound) }
+
+func c04ScnFor(prop string, p c04Params, bound int) *Scn {
 	return &Scn{Name: p.name(), Bound: bound, Run: func(ch vrt.Chooser, trace bool) *ScnResult {
 		w, e, o := c04Run(p, ch, trace)
-		return finishRun("C04", "writers", w, e, trace, true, func() (string, string) { return c04Judge(p, w, e, o) }, nil)
+		return finishRun(prop, "writers", w, e, trace, true, func() (string, string) { return c04Judge(p, w, e, o) }, nil)
 	}}
+}
+
+// c04JoinParams are the scenarios in which the plugin's OnClose waits for its writers (also run by C05:
+// a plugin that couples its callbacks must not be able to wedge the peer).
+func c04JoinParams() []c04Params {
+	var out []c04Params
+	for _, ev := range []string{"fin", "notif-rx", "handler-notif", "close"} {
+		out = append(out, c04Params{mode: "free1", event: ev, hold: 9, join: true})
+	}
+	return out
 }
 
 // c04StallRun: back-pressure. The remote keeps sending KEEPALIVEs but stops READING for 10 virtual
@@ -337,7 +371,10 @@ func c04Scenarios(th bool) []*Scn {
 				if th && (mode == "free1" || mode == "free2") && hold == 9 {
 					b = bound + 1
 				}
-				out = append(out, c04Scn(c04Params{mode, ev, hold}, b))
+				out = append(out, c04Scn(c04Params{mode: mode, event: ev, hold: hold}, b))
+				if (mode == "free1" || mode == "free2") && ev != "none" && hold == 9 {
+					out = append(out, c04Scn(c04Params{mode: mode, event: ev, hold: hold, join: true}, bound))
+				}
 			}
 		}
 	}
@@ -347,7 +384,7 @@ func c04Scenarios(th bool) []*Scn {
 func init() {
 	harness.Register(&harness.Check{
 		Property: "C04", Level: "model_checking", NeedsConc: true, QuickS: 200, ThoroughS: 1500,
-		Rule:   "stateless model checking of the real (rewritten) corebgp: WriteUpdate called from inside OnEstablished, from inside the handler and from 1-3 free goroutines (bodies of 0, 1, 23, 4077 bytes) whose writes coincide in virtual time with the keepalive timer (hold 9 s) and with one of {nothing, remote FIN, received NOTIFICATION, handler-returned NOTIFICATION, Close}; after a teardown corebgp reconnects and the old writers are used again; all schedules within the delay bound (2 quick / 3 thorough; 3 writers: one less); strict frame parser over every byte corebgp wrote per connection, multiset/ordering comparison with the WriteUpdate return values, race detector on; plus a stalled-reader scenario on a network with a bounded window (blocked and timed-out writes: whatever is on the wire must still be whole messages and the session must end); distinct_nontrivial = distinct observable outcomes",
+		Rule:   "stateless model checking of the real (rewritten) corebgp: WriteUpdate called from inside OnEstablished, from inside the handler and from 1-3 free goroutines (bodies of 0, 1, 23, 4077 bytes) whose writes coincide in virtual time with the keepalive timer (hold 9 s) and with one of {nothing, remote FIN, received NOTIFICATION, handler-returned NOTIFICATION, Close}; after a teardown corebgp reconnects and the old writers are used again; variants in which OnClose joins the writers' pending calls; all schedules within the delay bound (2 quick / 3 thorough; 3 writers: one less); strict frame parser over every byte corebgp wrote per connection, multiset/ordering comparison with the WriteUpdate return values, race detector on; plus a stalled-reader scenario on a network with a bounded window (blocked and timed-out writes: whatever is on the wire must still be whole messages and the session must end); distinct_nontrivial = distinct observable outcomes",
 		Assume: []string{"delay-bounded schedules", "virtual network (A3): net.Conn.Write is atomic with respect to concurrent writers (true for *net.TCPConn)", "race detector scope A5"},
 		Run: func(c *harness.Ctx) {
 			for i, s := range c04Scenarios(c.Thorough()) {
